@@ -12,6 +12,7 @@ import sys
 import time
 
 ROOT = os.path.dirname(os.path.dirname(os.path.abspath(__file__)))
+REPO = os.environ.get("VERIF_REPO", "/repo")  # an isolated worktree when run by seed_matrix_par.py
 EXTRA = {"C01-b": ["C04"], "C02-a": ["C14"], "C02-b": ["C01"], "C14-a": ["C02"], "C14-b": ["C02", "C09"], "C09-a": ["C14"],
          "C04-a": ["C01"], "C04-b": ["C01", "C03"], "C03-a": ["C01"], "C03-b": ["C01"], "C05-b": ["C06"], "C06-a": ["C05"],
          "C07-b": ["C05"], "C10-b": ["C09"], "C09-b": ["C10"], "C13-a": ["C12"], "C12-b": ["C13"]}
@@ -25,13 +26,15 @@ def sh(cmd, timeout=3600):
 def main():
     sd = sys.argv[1] if len(sys.argv) > 1 and os.path.isdir(sys.argv[1]) else os.path.join(ROOT, "seeded")
     names = [a for a in sys.argv[2:]] or sorted(n for n in os.listdir(sd) if os.path.isdir(os.path.join(sd, n)))
-    resf = os.path.join(sd, "RESULTS.json")
+    if "--table-only" in names:
+        names = []
+    resf = os.environ.get("SEED_RESULTS") or os.path.join(sd, "RESULTS.json")
     results = json.load(open(resf)) if os.path.exists(resf) else {}
-    rc, out = sh("git -C /repo status --short")
-    assert not out.strip(), "/repo is not clean: " + out
+    rc, out = sh("git -C %s status --short" % REPO)
+    assert not out.strip(), REPO + " is not clean: " + out
     for name in names:
         patch = os.path.join(sd, name, "patch.diff")
-        rc, out = sh("git -C /repo apply --check %s" % patch)
+        rc, out = sh("git -C %s apply --check %s" % (REPO, patch))
         if rc:
             results[name] = dict(applies=False, note=out.strip()[-300:])
             print(name, "DOES NOT APPLY")
@@ -40,7 +43,7 @@ def main():
         checks = [pid] + EXTRA.get(name, [])
         entry = dict(applies=True, checks={})
         try:
-            sh("git -C /repo apply %s" % patch)
+            sh("git -C %s apply %s" % (REPO, patch))
             for c in checks:
                 t0 = time.time()
                 rc, out = sh("cd %s && ./check %s --tier quick" % (ROOT, c))
@@ -50,7 +53,7 @@ def main():
                                           first_failures=[re.sub(r"^\[[^\]]*\]\s*", "", f)[:220] for f in fails], wall_s=round(time.time() - t0))
                 print(name, c, "exit", rc, "VIOLATION" if viol else "-", (fails[:1] or [""])[0][:150], flush=True)
         finally:
-            sh("git -C /repo checkout -- .")
+            sh("git -C %s checkout -- ." % REPO)
         results[name] = entry
         json.dump(results, open(resf, "w"), indent=1)
     # restore generated files / evidence to the unchanged tree's
